@@ -25,7 +25,7 @@ func (c02) ID() string { return "C02" }
 func (c02) Info(t core.Tier) core.Info {
 	return core.Info{
 		Level: "exploration",
-		Rule: "each case = one generated schema tree (all node kinds, modifiers, tests, nesting <= 3) x 6 failure-biased inputs x {Parse, Validate} x 3 rebuilds with permuted field insertion order; " +
+		Rule: "each case = one generated schema tree (all node kinds, modifiers, tests, nesting <= 3) x 6 failure-biased inputs x {Parse, Validate} x 3 rebuilds with permuted field insertion order; every 5th case instead 5 failure-biased records of a record schema presented through zjson, a zhttp JSON body, form, query and env (lists with blank occurrences included); " +
 			"oracle: multiset of (path, code, type) of the returned issues == reference semantics, and result nil <=> no expected issue. " +
 			"non-trivial: >= 2 expected issues at >= 2 distinct nodes, or a required/coerce/not_nil suppression on a node that has tests or children; distinct by (schema, input, mode).",
 		Assumptions: commonAssumptions,
@@ -94,7 +94,75 @@ func nontrivialC02(res *ref.Result) bool {
 	return len(res.Issues) >= 2 && len(nodes) >= 2
 }
 
+// c02Fronts: the same exactness oracle on records presented through every front end (what the front end presents is
+// computed independently: decoded JSON, the documented presentation of URL parameters, trimmed environment values).
+func c02Fronts(c *core.Ctx) {
+	flat := c.R.Intn(10) < 7
+	fo := gen.FrontOpts{Flat: flat, EnvOnly: flat && c.R.Intn(3) == 0, MaxDepth: 2, MaxFields: 4, KeepIssuePath: true}
+	n := gen.RecordSchema(c.R, fo)
+	fronts := []string{"zjson", "zhttp-json"}
+	if flat {
+		fronts = append(fronts, "form", "query")
+		if fo.EnvOnly {
+			fronts = append(fronts, "env")
+		}
+	}
+	src := n.Source()
+	for k := 0; k < 5; k++ {
+		rec := gen.GenRecord(c.R, n, 50, fo)
+		if m, ok := rec.(map[string]any); ok && len(m) == 0 {
+			continue // the empty top-level JSON object is C10's recorded finding (keys of its issues)
+		}
+		for _, f := range fronts {
+			b := spec.Build(n, &spec.Hooks{FieldOrder: permutedOrder(c.R)})
+			o, env, data := frontExec(b, n, rec, f, nil, false)
+			c.Eval(1)
+			exp := ref.Eval(n, env, data, nil)
+			if exp.Unknown != "" {
+				c.Count("skipped_open_corner", 1)
+				continue
+			}
+			det := map[string]any{"schema": src, "record": obs.Render(rec), "front_end": f, "json_document": gen.RecToJSON(n, rec)}
+			if frontIsFlat(f) {
+				det["flat_rendering"] = gen.RecToFlat(n, rec, frontTag(f)).Encode()
+			}
+			if o.Panicked {
+				det["panic"], det["stack"] = fmt.Sprint(o.Panic), trunc(o.Stack, 2000)
+				c.Violation("panic|"+f, det)
+				return
+			}
+			want, got := expectedTriples(exp), actualTriples(o)
+			onlyWant, onlyGot := obs.MultisetDiff(want, got)
+			if len(onlyWant) > 0 || len(onlyGot) > 0 {
+				cls := "missing"
+				if len(onlyWant) == 0 {
+					cls = "spurious"
+				} else if len(onlyGot) > 0 {
+					cls = "different"
+				}
+				det["expected_issues(path|code|type)"], det["observed_issues"], det["missing"], det["unexpected"] = want, issuesText(o), onlyWant, onlyGot
+				c.Violation("issues-"+cls+"|"+f, det)
+				return
+			}
+			if (len(want) == 0) != o.Nil {
+				det["expected_issues"], det["result_nil"] = want, o.Nil
+				c.Violation("nil-iff-no-violation|"+f, det)
+				return
+			}
+			c.Distinct("front_ends", f)
+			c.Count("expected_issues_total", len(exp.Issues))
+			if nontrivialC02(exp) {
+				c.NonTrivial(fpf("%s|%s|%s", src, f, obs.Render(rec)))
+			}
+		}
+	}
+}
+
 func (c02) RunCase(c *core.Ctx) {
+	if c.Case%5 == 4 {
+		c02Fronts(c)
+		return
+	}
 	n := c02Schema(c.R)
 	src := n.Source()
 	inOpts := gen.InOpts{ValidPct: 45, AbsentPct: 20, WrongPct: 15, AltRep: true, Decoys: true}
